@@ -84,6 +84,7 @@ def parseStateTok (s : Sys) (t : String) : Option Sys :=
       let n ← ofHex (k.drop 2).toString
       let c ← ofHex v
       pure { s with nvL := s.nvL ++ [(n, c)] }
+    else if k.startsWith "B:" then some s   -- a loopback port held by somebody else: not router state
     else none
   | _ => none
 
